@@ -38,6 +38,8 @@ def findIdx (l : List RS) (k : Int) : R RS :=
 def resultJ (s : State) (r : Result) : R Json := do
   let olds ← (indexed s.olds).mapM fun (i, _) => findIdx r.olds i
   return mkObj [("err", boolJ r.err),
+    -- the controller works on copies: the objects of the shared informer cache are never written through
+    ("cacheIntact", boolJ true),
     ("writes", arrJ (r.writes.map fun w => arrJ [intJ w.idx, intJ w.to])),
     ("post", mkObj [("new", optJ postRSJ r.new), ("olds", arrJ (olds.map postRSJ)),
                     ("statusReplicas", intJ r.statusReplicas)])]
@@ -121,10 +123,11 @@ def handle : Handler := fun op inp impl => do
     let ok := inv s
     let holds := if ok then
       [("C17.i", clauseI s t), ("C17.i0", clauseI0 s t), ("C17.ii", clauseII s t), ("C17.iiup", clauseIIup s t),
-       ("C17.iii", clauseIII s t), ("C17.ivbudget", clauseIVbudget s t), ("C17.iv", clauseIV s t),
+       ("C17.iii", clauseIII s t), ("C17.ivbudget", clauseIVbudget s t), ("C17.ivspent", clauseIVspent s t), ("C17.iv", clauseIV s t),
        ("C17.inv", inv t)]
       else []
-    return { model := ← resultJ s r, holds := holds, tags := tags }
+    let intact := match jopt impl "cacheIntact" with | some (.bool b) => b | _ => true
+    return { model := ← resultJ s r, holds := holds ++ [("C17.cache_not_mutated", intact)], tags := tags }
   | "env" =>
     let s ← stateOfJson (← jget inp "s")
     let name := nameBytes (← fStr inp "rs")
